@@ -109,10 +109,13 @@ KnownEphemeral == {<<"node.kubernetes.io/not-ready", "NoSchedule">>, <<"node.kub
 ReadinessKeys == {"readiness.k8s.io/network-ready", "readiness.k8s.io/storage-ready"}   \* the readiness.k8s.io/* keys of the alphabet
 IsEphemeral(t) == <<t.key, t.effect>> \in KnownEphemeral \/ t.key \in ReadinessKeys
 NodeTaintsOf(n) == IF "nodeTaints" \in DOMAIN n THEN n.nodeTaints ELSE <<>>
+\* node records of other drivers (consolidation clusters) carry no stage / startup fields: every taint of theirs counts
+StageOf(n) == IF "stage" \in DOMAIN n THEN n.stage ELSE "initialized"
+StartupOf(n) == IF "startup" \in DOMAIN n THEN n.startup ELSE <<>>
 EffTaints(n) ==
     LET all == n.taints \o NodeTaintsOf(n) IN
-    IF n.stage \in {"initialized", "unmanaged"} THEN all
-    ELSE SelectSeq(all, LAMBDA t : ~IsEphemeral(t) /\ ~\E s \in Range(n.startup) : s.key = t.key /\ s.effect = t.effect)
+    IF StageOf(n) \in {"initialized", "unmanaged"} THEN all
+    ELSE SelectSeq(all, LAMBDA t : ~IsEphemeral(t) /\ ~\E s \in Range(StartupOf(n)) : s.key = t.key /\ s.effect = t.effect)
 
 \* host ports
 Unspec(ip) == ip \in {"", "0.0.0.0", "::"}
